@@ -194,6 +194,19 @@ CHECKS = {
         design_ref='§7 C12',
         note=NOTE_COMMON + 'Open findings C12-F1 (operator prefixes only parsed in "<op><number>" literals), C12-F2 (ordering criterion vs text cell raises), C12-F3 (blank counted as 0) with spec-computed guards; inside a guard the deviant outcome is not modelled (precision any). Numeric-looking and calendar-word texts are kept out (dateutil clock hazard).',
         technique='TLA+ criteria oracle with TLC-checked laws, TLC-enumerated columns x criteria x spellings replayed, trace validation'),
+    'C07': dict(
+        category='model_checking',
+        text=('The specification states the obligation on any emitter of Python text on a model of Python\'s short string literal (PyString: Quote = ideal '
+              'emitter, Unquote = lexer with backslash escapes, closing quote, raw newline): TLC checks QuoteIsInert and NoPrefixCloses for every text up to '
+              'length L over {a \' " \\ newline # { } % * ? ~ ( ) + n} and that the naive emitter (quotes around the raw text) fails on the anchors; it '
+              'enumerates every such text. Binding: each text is planted raw and wrapped in letters in a constant cell, a plain formula literal, a literal next to '
+              'another literal, a criterion, a SEARCH pattern and a sheet title, with the safety check on and off, plus a payload corpus that calls a canary '
+              'builtin; per case the outcome class, the canary count after load and after evaluating every member, the AST shape of the module against the '
+              'same workbook with a benign text, and the evaluated value are recorded and judged by TLC (Trace_C07, PyString.Verdict); payloads also go '
+              'through real xlsx files, Parser with safety on/off and Executor(class_file).'),
+        design_ref='§7 C07',
+        note=NOTE_COMMON + 'CPython compile/exec is the trusted model of "executable"; taint is an AST-shape comparison (constants normalised); for formula positions it is applied only to texts without a double quote (which ends the Excel literal).',
+        technique='TLA+ model of Python string-literal lexing with TLC-checked emitter obligation, TLC-enumerated texts planted and observed, trace validation'),
 }
 
 NOT_APPLICABLE = {}
